@@ -1,7 +1,171 @@
-(* C09 -- property theorems only. *)
-Require Import SF.Prelude SF.Dtype SF.GrowOnly Proofs.GrowOnlyIndex.
+(* C09 -- grow-only containers: append-only, all-or-nothing, never shared.
+   Property theorems only; each closed by `exact` and followed by Print Assumptions.
+   Labels L with Python equality leq (reflexive, symmetric) and the int view as_pos used by the
+   loc_is_iloc fast path; cells V.  S_* = specification, M_* = implementation model (SF/GrowOnly*.v). *)
+Require Import SF.Prelude SF.Dtype SF.GrowOnly SF.GrowOnlyHier SF.GrowOnlyShare Gen.Gen_c09 SF.GrowOnlyWorld
+  Proofs.GrowOnlyIndex Proofs.GrowOnlyBlocks Proofs.GrowOnlyFrame Proofs.GrowOnlyWorld Proofs.GrowOnlyExamples.
 
-Theorem C09_index_append_only : forall (L : Type) (leq : L -> L -> bool) ops l,
+(* ---------------------------------------------------------------- IndexGO *)
+(* specification, every history: the labels afterwards are the labels before followed by exactly the
+   labels of the accepted calls in the order given (append-only, order given) ... *)
+Theorem C09_index_spec_append_only : forall (L : Type) (leq : L -> L -> bool) ops l,
   fst (S_irun L leq l ops) = l ++ S_igiven L leq l ops.
 Proof. exact S_irun_append_only. Qed.
-Print Assumptions C09_index_append_only.
+Print Assumptions C09_index_spec_append_only.
+
+(* ... duplicate free (duplicates are rejected, within one call too) ... *)
+Theorem C09_index_spec_no_duplicates : forall (L : Type) (leq : L -> L -> bool),
+  (forall a b, leq a b = leq b a) ->
+  forall ops l, nodupb L leq l = true -> nodupb L leq (fst (S_irun L leq l ops)) = true.
+Proof. exact S_irun_nodup. Qed.
+Print Assumptions C09_index_spec_no_duplicates.
+
+(* ... and a rejected call leaves the labels as they were *)
+Theorem C09_index_spec_all_or_nothing : forall (L : Type) (leq : L -> L -> bool) l op l1 e,
+  S_istep L leq l op = (l1, Err e) -> l1 = l.
+Proof. exact S_istep_all_or_nothing. Qed.
+Print Assumptions C09_index_spec_all_or_nothing.
+
+(* REFINEMENT: for every history of append / extend / reads inside the guard dom_irun the implementation
+   model (labels list, AutoMap or loc_is_iloc, count, array cache with its recache flag) holds exactly
+   the specification's labels, accepts exactly the same calls, and stays well formed *)
+Theorem C09_index_refines : forall (L : Type) (leq : L -> L -> bool) (as_pos : L -> option Z),
+  (forall a, leq a a = true) -> (forall a b, leq a b = leq b a) ->
+  (forall a b x y, as_pos a = Some x -> as_pos b = Some y -> leq a b = (x =? y)) ->
+  forall ops s, igo_wf L leq as_pos s -> dom_irun L leq as_pos s ops = true ->
+  igo_wf L leq as_pos (fst (M_irun L leq as_pos s ops)) /\
+  g_lm (fst (M_irun L leq as_pos s ops)) = fst (S_irun L leq (g_lm s) ops) /\
+  map is_ok (snd (M_irun L leq as_pos s ops)) = map is_ok (snd (S_irun L leq (g_lm s) ops)).
+Proof. exact igo_refines. Qed.
+Print Assumptions C09_index_refines.
+
+(* what a reader sees of a well-formed index (after the cache is materialised): the labels, as many
+   positions as labels, every label found at its own position *)
+Theorem C09_index_reader : forall (L : Type) (leq : L -> L -> bool) (as_pos : L -> option Z),
+  (forall a, leq a a = true) -> (forall a b, leq a b = leq b a) ->
+  (forall a b x y, as_pos a = Some x -> as_pos b = Some y -> leq a b = (x =? y)) ->
+  forall s, igo_wf L leq as_pos s -> M_iobserve L leq as_pos s = S_iobserve L (g_lm s).
+Proof. exact igo_observe. Qed.
+Print Assumptions C09_index_reader.
+
+(* without any guard: no history ever removes or reorders a label of the implementation model *)
+Theorem C09_index_labels_never_lost : forall (L : Type) (leq : L -> L -> bool) (as_pos : L -> option Z) ops s,
+  exists t, g_lm (fst (M_irun L leq as_pos s ops)) = g_lm s ++ t.
+Proof. exact M_irun_prefix. Qed.
+Print Assumptions C09_index_labels_never_lost.
+
+(* without any guard: on an index that has a map, a rejected append leaves the state exactly as it was *)
+Theorem C09_index_append_atomic : forall (L : Type) (leq : L -> L -> bool) (as_pos : L -> option Z) s v e,
+  g_map s <> None -> snd (M_append L leq as_pos s v) = Err e -> fst (M_append L leq as_pos s v) = s.
+Proof. exact M_append_atomic_with_map. Qed.
+Print Assumptions C09_index_append_atomic.
+
+(* ---------------------------------------------------------------- TypeBlocks *)
+(* append: accepted exactly when the heights agree; _blocks/_index/_dtypes/_shape stay coherent and the
+   columns seen so far keep their position, values and dtype *)
+Theorem C09_blocks_append : forall (V : Type) (t : tb V) (b : blk V) (t' : tb V),
+  tb_wf V t -> blk_ok V b -> M_tb_append V t b = Ok t' ->
+  tb_wf V t' /\ tb_flat t' = tb_flat t ++ blk_flat b /\ t_rows t' = t_rows t /\ b_rows b = t_rows t.
+Proof. exact tb_append_ok. Qed.
+Print Assumptions C09_blocks_append.
+
+(* labels and data in step: reading column j through the directory gives the j-th column *)
+Theorem C09_blocks_column_read : forall (V : Type) (t : tb V) (j : Z),
+  tb_wf V t -> M_tb_column V t j = znth (tb_flat t) j.
+Proof. exact tb_column_correct. Qed.
+Print Assumptions C09_blocks_column_read.
+
+(* ---------------------------------------------------------------- FrameGO *)
+(* specification, every history of setitem / extend_items / extend(Series) / extend(Frame): rows kept,
+   the labels and the columns before are a prefix of those after *)
+Theorem C09_frame_spec_append_only : forall (L V : Type) (leq : L -> L -> bool)
+  (cast : dtype -> V -> V) (resolve : dtype -> dtype -> dtype) ops a,
+  extends L V a (fst (S_run L V leq cast resolve a ops)).
+Proof. exact S_run_extends. Qed.
+Print Assumptions C09_frame_spec_append_only.
+
+Theorem C09_frame_spec_all_or_nothing : forall (L V : Type) (leq : L -> L -> bool)
+  (cast : dtype -> V -> V) (resolve : dtype -> dtype -> dtype) a op,
+  is_ok (snd (S_step L V leq cast resolve a op)) = false -> fst (S_step L V leq cast resolve a op) = a.
+Proof. exact S_step_all_or_nothing. Qed.
+Print Assumptions C09_frame_spec_all_or_nothing.
+
+(* REFINEMENT: for every history inside the guard dom_run, every initial block layout and every layout of
+   the frames given to extend, the implementation model (IndexGO machine + TypeBlocks members, mutated
+   in the order the code mutates them) is the specification's frame *)
+Theorem C09_frame_refines : forall (L V : Type) (leq : L -> L -> bool) (as_pos : L -> option Z)
+  (cast : dtype -> V -> V) (resolve : dtype -> dtype -> dtype),
+  (forall a, leq a a = true) -> (forall a b, leq a b = leq b a) ->
+  (forall a b x y, as_pos a = Some x -> as_pos b = Some y -> leq a b = (x =? y)) ->
+  forall ops f, fgo_wf L V leq as_pos f -> dom_run L V leq as_pos cast resolve f ops = true ->
+  fgo_wf L V leq as_pos (fst (M_run L V leq as_pos cast resolve f ops)) /\
+  abs_fgo L V (fst (M_run L V leq as_pos cast resolve f ops)) = fst (S_run L V leq cast resolve (abs_fgo L V f) ops) /\
+  map is_ok (snd (M_run L V leq as_pos cast resolve f ops)) = map is_ok (snd (S_run L V leq cast resolve (abs_fgo L V f) ops)).
+Proof. exact fgo_refines. Qed.
+Print Assumptions C09_frame_refines.
+
+(* lock-step after every such history: as many labels as data columns, rows untouched *)
+Theorem C09_frame_lockstep : forall (L V : Type) (leq : L -> L -> bool) (as_pos : L -> option Z)
+  (cast : dtype -> V -> V) (resolve : dtype -> dtype -> dtype),
+  (forall a, leq a a = true) -> (forall a b, leq a b = leq b a) ->
+  (forall a b x y, as_pos a = Some x -> as_pos b = Some y -> leq a b = (x =? y)) ->
+  forall ops f, fgo_wf L V leq as_pos f -> dom_run L V leq as_pos cast resolve f ops = true ->
+  let f' := fst (M_run L V leq as_pos cast resolve f ops) in
+  zlen (g_lm (f_cols f')) = zlen (tb_flat (f_tb f')) /\ t_ncols (f_tb f') = zlen (g_lm (f_cols f')) /\
+  f_rows f' = f_rows f.
+Proof. exact fgo_lockstep. Qed.
+Print Assumptions C09_frame_lockstep.
+
+(* the reader of a well-formed FrameGO sees the specification's frame, and every label leads to a column *)
+Theorem C09_frame_reader : forall (L V : Type) (leq : L -> L -> bool) (as_pos : L -> option Z),
+  (forall a, leq a a = true) -> (forall a b, leq a b = leq b a) ->
+  (forall a b x y, as_pos a = Some x -> as_pos b = Some y -> leq a b = (x =? y)) ->
+  forall f, fgo_wf L V leq as_pos f -> M_fobserve L V leq as_pos f = S_fobserve L V (abs_fgo L V f).
+Proof. exact fgo_observe. Qed.
+Print Assumptions C09_frame_reader.
+
+(* the hypotheses and guards above are satisfiable, with accepted and rejected calls of every kind *)
+Theorem C09_guards_satisfiable :
+  igo_wf Z Z.eqb zpos ex_igo /\ fgo_wf Z Z Z.eqb zpos ex_fgo /\
+  dom_irun Z Z.eqb zpos ex_igo ex_iops = true /\
+  dom_run Z Z Z.eqb zpos zcast zresolve ex_fgo ex_gops = true /\
+  map is_ok (snd (M_run Z Z Z.eqb zpos zcast zresolve ex_fgo ex_gops))
+    = [true; false; false; true; true; false; true; true; true].
+Proof.
+  exact (conj ex_igo_wf (conj ex_fgo_wf (conj (proj1 ex_index_guard)
+         (conj (proj1 ex_frame_guard) (proj1 (proj2 ex_frame_guard)))))).
+Qed.
+Print Assumptions C09_guards_satisfiable.
+
+(* ---------------------------------------------------------------- never shared *)
+(* the decision tables REGENERATED from the source: a grow-only index is never handed on as the same
+   object by index_from_optional_constructor / mutable_immutable_index_filter, and the result has the
+   staticness the target needs *)
+Theorem C09_index_filters_copy_across_the_boundary : forall target_static value_static,
+  (value_static = false -> gen_ifoc target_static value_static <> ASame) /\
+  action_static (gen_ifoc target_static value_static) value_static = target_static /\
+  (value_static = false -> gen_miif target_static value_static <> ASame) /\
+  action_static (gen_miif target_static value_static) value_static = target_static.
+Proof. exact gen_index_filters_safe. Qed.
+Print Assumptions C09_index_filters_copy_across_the_boundary.
+
+(* for EVERY interleaving of growth calls with to_frame / to_frame_go / to_frame_he / Frame(f) /
+   FrameGO(f) / FrameHE(f) as the regenerated tables perform them: a grow-only frame shares neither its
+   columns object nor its TypeBlocks object with any other frame ... *)
+Theorem C09_never_shared : forall (L V : Type) (leq : L -> L -> bool) (as_pos : L -> option Z)
+  (cast : dtype -> V -> V) (resolve : dtype -> dtype -> dtype) ops (w : world L V),
+  sep L V w -> sep L V (wrun L V leq as_pos cast resolve w ops).
+Proof. exact world_sep_invariant. Qed.
+Print Assumptions C09_never_shared.
+
+(* ... so a growth call changes what is seen of no other frame, and a conversion changes nothing that
+   existed and yields a frame with the labels and columns of its source *)
+Theorem C09_growth_isolated : forall (L V : Type) (leq : L -> L -> bool) (as_pos : L -> option Z)
+  (cast : dtype -> V -> V) (resolve : dtype -> dtype -> dtype) ops (w : world L V),
+  sep L V w -> all_isolated L V leq as_pos cast resolve w ops.
+Proof. exact world_isolated. Qed.
+Print Assumptions C09_growth_isolated.
+
+Theorem C09_world_nonempty : sep Z Z ex_world.
+Proof. exact ex_world_sep. Qed.
+Print Assumptions C09_world_nonempty.
